@@ -20,8 +20,9 @@ import sys
 import unicodedata
 from abc import abstractmethod
 from functools import reduce
+from fractions import Fraction
 from itertools import chain, groupby
-from numbers import Rational
+from numbers import Integral, Rational
 from operator import mul
 from typing import (
     Any, Callable, Generator, Iterable, Iterator, List, Optional, Sequence,
@@ -124,7 +125,11 @@ class Term(ItemSequenceT[T]):
         # optimize a common case:
         if len(_items) == 1:
             (elem, exp) = _items[0]
-            if isinstance(elem, Rational) or elem.is_base_elem():
+            if isinstance(elem, Rational):
+                # a numeric item is normalized only with exponent 1
+                if exp == 1:
+                    self._normalized = self
+            elif elem.is_base_elem():
                 self._normalized = self
 
     def _reduce_items(self, items: ItemIterableT[T],
@@ -174,7 +179,7 @@ class Term(ItemSequenceT[T]):
                 return tuple(_filter_items(((elem2, exp2), (elem1, exp1))))
             # least relevant case: 2 numeric elements
             if isinstance(elem1, Rational) and isinstance(elem2, Rational):
-                num: Rational = elem1 ** exp1 * elem2 ** exp2
+                num: Rational = _num_pow(elem1, exp1) * _num_pow(elem2, exp2)
                 if num != 1:
                     return (num, 1),
         # more than 2 items or number of items unknown:
@@ -227,7 +232,7 @@ class Term(ItemSequenceT[T]):
             else:  # numerical elements
                 group_it = cast(Iterator[Tuple[int, Tuple[Rational, int]]],
                                 group_it)
-                num_elem = reduce(mul, (elem ** exp
+                num_elem = reduce(mul, (_num_pow(elem, exp)
                                         for _, (elem, exp) in group_it),
                                   num_elem)
         if num_elem != 1:
@@ -270,7 +275,7 @@ class Term(ItemSequenceT[T]):
             pass
         else:
             if isinstance(elem, Rational):
-                return cast(Rational, elem ** exp)
+                return _num_pow(elem, exp)
         return None
 
     def split(self, dflt_num: Rational = ONE) \
@@ -408,6 +413,14 @@ class Term(ItemSequenceT[T]):
 
 
 # helper functions
+
+def _num_pow(num: Rational, exp: int) -> Rational:
+    """Return `num` ** `exp` as exact rational number."""
+    if exp < 0 and isinstance(num, Integral):
+        # int ** negative int would give an (inexact) float
+        return Fraction(1, int(num) ** -exp)
+    return cast(Rational, num ** exp)
+
 
 def _filter_items(items: ItemIterableT[T]) \
         -> Generator[ItemT[T], None, None]:
